@@ -14,6 +14,7 @@ import MdProofs.Lemmas.SymStream
 import MdProofs.Lemmas.SymChunk
 import MdProofs.Lemmas.SymParseLocal
 import MdProofs.Lemmas.SymNoPanic
+import MdProofs.Lemmas.SymTrailer
 namespace MdModel.CacheFs.Real
 open MdModel MdModel.Stream MdModel.Sym MdModel.Gen.SymConsts
 
@@ -259,6 +260,195 @@ theorem drain_spec (input : Bytes) : ∀ (fuel : Nat) (s1 : LoopSt) (out : LoopO
       exact ⟨q1, ((c1 s2 ht).trans (recover_cb s2)).trans q2, q3⟩
 
 
+/-! ### no panic outcome (second half of `Stream.step_safe`), and `Ok` only at the end of the response -/
+
+theorem symOps_safe' : ParserSafe symOps PInv :=
+  ⟨fun st w h => parseMore_ok st w h, fun _ h => h.congr rfl rfl rfl rfl⟩
+
+theorem recover_safe (s : LoopSt) (h : PInv s.ps) : PInv (recover s).ps := by
+  unfold recover
+  split
+  · unfold recoverBlock
+    dsimp only
+    split
+    · exact symOps_safe'.2 _ h
+    · exact h
+  · exact h
+
+theorem tailS_safe (s1 : LoopSt) (h1 : PInv s1.ps) :
+    (∀ s', tailS s1 = .inl s' → PInv s'.ps) ∧
+    (∀ out sf, tailS s1 = .inr (out, sf) → (∀ e, out ≠ .panic e) ∧ ∀ ps, out = .ok ps → PInv ps) := by
+  unfold tailS
+  have h2 : PInv (readBlock s1).1.ps := h1
+  split
+  · unfold zeroBlock
+    split
+    · obtain ⟨p1, p2⟩ := parseBlock_safe symOps PInv symOps_safe' _ h2
+      exact ⟨p1, fun out sf h => ⟨(p2 out sf h).1, fun ps hps => absurd hps ((p2 out sf h).2 ps)⟩⟩
+    · split
+      · refine ⟨fun _ h => (by cases h), fun out sf h => ?_⟩
+        cases h
+        exact ⟨fun e h => (by cases h), fun ps h => (by cases h; exact h2)⟩
+      · split
+        · dsimp only
+          split
+          · exact ⟨fun s' h => (by cases h; exact h2), fun _ _ h => (by cases h)⟩
+          · exact ⟨fun s' h => (by cases h; exact h2), fun _ _ h => (by cases h)⟩
+        · split
+          · refine ⟨fun _ h => (by cases h), fun out sf h => ?_⟩
+            cases h
+            exact ⟨fun e h => (by cases h), fun ps h => (by cases h)⟩
+          · refine ⟨fun _ h => (by cases h), fun out sf h => ?_⟩
+            cases h
+            exact ⟨fun e h => (by cases h), fun ps h => (by cases h)⟩
+  · obtain ⟨p1, p2⟩ := parseBlock_safe symOps PInv symOps_safe' { (readBlock s1).1 with triedToGrow := false } h2
+    exact ⟨p1, fun out sf h => ⟨(p2 out sf h).1, fun ps hps => absurd hps ((p2 out sf h).2 ps)⟩⟩
+
+theorem parseBlock_not_ok (s : LoopSt) (ps : PState) (sf : LoopSt) :
+    parseBlock symOps s ≠ .inr (.ok ps, sf) := by
+  intro h
+  unfold parseBlock at h
+  split at h
+  · cases h
+  · dsimp only at h
+    split at h
+    · cases h
+    · cases h
+    · split at h <;> cases h
+
+/-- `Ok` is only returned from a zero-length read with nothing left in the window: the reader is
+    where it was -/
+theorem tailS_ok_unread (s1 : LoopSt) (ps : PState) (sf : LoopSt) (h : tailS s1 = .inr (.ok ps, sf)) :
+    sf.unread = s1.unread := by
+  unfold tailS at h
+  obtain ⟨_, _, rb3⟩ := readBlock_measure s1
+  split at h
+  · next hz =>
+    unfold zeroBlock at h
+    split at h
+    · exact absurd h (parseBlock_not_ok _ ps sf)
+    · split at h
+      · cases h; exact (rb3 hz).2
+      · split at h
+        · dsimp only at h; split at h <;> cases h
+        · split at h <;> cases h
+  · exact absurd h (parseBlock_not_ok _ ps sf)
+
+/-! ### termination (second half of `Stream.step_measure`): `pump` and `drain` never run out of fuel -/
+
+/-- after the recovery block: still recovering means the whole window was discarded -/
+def RecDone (s : LoopSt) : Prop := s.inRecovery = true → s.fullyConsumed = true ∧ s.buf.data = []
+
+theorem recover_measure (s : LoopSt) :
+    (recover s).unread = s.unread ∧ Stream.measure (recover s) ≤ Stream.measure s ∧ RecDone (recover s) := by
+  unfold recover
+  by_cases hr : s.inRecovery = true
+  · simp only [hr, if_true]
+    obtain ⟨h1, h2, h3⟩ := recoverBlock_measure symOps s hr
+    refine ⟨h1, ?_, h3⟩
+    unfold Stream.measure; rw [h1]; omega
+  · simp only [hr]
+    exact ⟨rfl, Nat.le_refl _, fun h => absurd h hr⟩
+
+theorem tailS_measure (s1 s' : LoopSt) (hrec1 : RecDone s1) (h : tailS s1 = .inl s') :
+    Stream.measure s' < Stream.measure s1 := by
+  unfold tailS at h
+  obtain ⟨rb1, rb2, rb3⟩ := readBlock_measure s1
+  have hfl : (readBlock s1).1.fullyConsumed = s1.fullyConsumed := rfl
+  have hrc : (readBlock s1).1.inRecovery = s1.inRecovery := rfl
+  split at h
+  · next hz =>
+    obtain ⟨hd2, hu2⟩ := rb3 hz
+    unfold zeroBlock at h
+    split at h
+    · next hjf =>
+      -- fall through to the parser after a finished recovery
+      have hjf' : (readBlock s1).1.justFinished = true ∧ (readBlock s1).1.buf.data ≠ [] := by
+        simp only [Bool.and_eq_true, Bool.not_eq_true', List.isEmpty_eq_false_iff] at hjf; exact hjf
+      have hnr : s1.inRecovery = false := by
+        cases hr : s1.inRecovery with
+        | false => rfl
+        | true => exact absurd ((hrec1 hr).2) (by rw [← hd2]; exact hjf'.2)
+      obtain ⟨p1, p2, p3, p4, p5, p6⟩ := parseBlock_measure symOps _ s' h
+      have hj' : s'.justFinished = false := p6 (hrc.trans hnr)
+      have := flagsM_just s' (readBlock s1).1 hj' hjf'.1 p3 p4
+      simp only [Stream.measure]
+      rw [p1, hu2]; rw [hd2] at p2; rw [rb2] at this
+      omega
+    · split at h
+      · cases h
+      · next hnf =>
+        have hnr : s1.inRecovery = false := by
+          cases hr : s1.inRecovery with
+          | false => rfl
+          | true => exact absurd ((hfl.trans (hrec1 hr).1)) hnf
+        split at h
+        · next hgrow =>
+          have htg : (readBlock s1).1.triedToGrow = false := by
+            simp only [Bool.and_eq_true, Bool.not_eq_true'] at hgrow; exact hgrow.1
+          dsimp only at h
+          split at h
+          · cases h
+            -- enter recovery
+            exact measure_lt _ s1.unread.length s1.buf.data.length (flagsM s1)
+              (by show (readBlock s1).1.unread.length = _; rw [hu2])
+              (by show (readBlock s1).1.buf.data.length ≤ _; rw [hd2]; exact Nat.le_refl _)
+              (by rw [← rb2]; exact flagsM_rec _ (readBlock s1).1 rfl rfl rfl (hrc.trans hnr))
+          · cases h
+            -- grow
+            exact measure_lt _ s1.unread.length s1.buf.data.length (flagsM s1)
+              (by show (readBlock s1).1.unread.length = _; rw [hu2])
+              (by show ((readBlock s1).1.buf.grow _).data.length ≤ _; rw [Buf.grow_data, hd2]; exact Nat.le_refl _)
+              (by rw [← rb2]; exact flagsM_tried _ (readBlock s1).1 rfl rfl htg rfl)
+        · split at h <;> cases h
+  · next hnz =>
+    obtain ⟨p1, p2, p3, p4, p5, p6⟩ := parseBlock_measure symOps _ s' h
+    have hfl' := flagsM_reset s' (readBlock s1).1 p5 p4
+    have e1 : s'.unread.length = (readBlock s1).1.unread.length := by rw [p1]
+    have p2' : s'.buf.data.length ≤ (readBlock s1).1.buf.data.length := p2
+    have hfl'' : flagsM s' ≤ flagsM s1 + 1 := by rw [← rb2]; exact hfl'
+    have : (readBlock s1).2.length ≠ 0 := hnz
+    show 8 * s'.unread.length + 4 * s'.buf.data.length + flagsM s'
+      < 8 * s1.unread.length + 4 * s1.buf.data.length + flagsM s1
+    omega
+
+theorem pump_fuel : ∀ (fuel : Nat) (s1 : LoopSt), RecDone s1 → s1.unread ≠ [] →
+    Stream.measure s1 < fuel → pump fuel s1 ≠ .fuel := by
+  intro fuel
+  induction fuel with
+  | zero => intro s1 _ _ h; omega
+  | succ n ih =>
+    intro s1 hrd hun hm
+    unfold pump
+    rw [afterFetch_eq_tailS false s1 (Or.inr hun)]
+    cases ht : tailS s1 with
+    | inr r => obtain ⟨o, f⟩ := r; simp
+    | inl s2 =>
+      dsimp only
+      have h1 := tailS_measure s1 s2 hrd ht
+      obtain ⟨_, h2, h3⟩ := recover_measure s2
+      split
+      · simp
+      · next he => exact ih (recover s2) h3 (by intro e; rw [e] at he; simp at he) (by omega)
+
+theorem drain_fuel : ∀ (fuel : Nat) (s1 : LoopSt), RecDone s1 →
+    Stream.measure s1 < fuel → drain fuel s1 ≠ none := by
+  intro fuel
+  induction fuel with
+  | zero => intro s1 _ h; omega
+  | succ n ih =>
+    intro s1 hrd hm
+    unfold drain
+    rw [afterFetch_eq_tailS true s1 (Or.inl rfl)]
+    cases ht : tailS s1 with
+    | inr r => simp
+    | inl s2 =>
+      dsimp only
+      have h1 := tailS_measure s1 s2 hrd ht
+      obtain ⟨_, h2, h3⟩ := recover_measure s2
+      exact ih (recover s2) h3 (by omega)
+
+
 /-! ### law 1: `callback_prefix` -/
 
 theorem init_post : Post [] init := by
@@ -363,6 +553,462 @@ theorem callback_prefix_real (rx : List Bytes) (s : LoopSt) (cb : Bytes)
           have := m.split
           rw [hd0, hu0, List.append_nil, List.append_nil, cbBytes_newCb hext] at this
           rw [hcb]; exact this
+
+
+/-! ### what `none` stands for: `feed` / `finish` are total, never panic, and `Ok` comes only from `finish` -/
+
+theorem pump_await_safe : ∀ (fuel : Nat) (s1 s' : LoopSt), PInv s1.ps → s1.unread ≠ [] →
+    pump fuel s1 = .await s' → RecDone s' ∧ PInv s'.ps := by
+  intro fuel
+  induction fuel with
+  | zero => intro s1 s' _ _ h; simp [pump] at h
+  | succ n ih =>
+    intro s1 s' hq hun h
+    unfold pump at h
+    rw [afterFetch_eq_tailS false s1 (Or.inr hun)] at h
+    obtain ⟨t1, _⟩ := tailS_safe s1 hq
+    cases ht : tailS s1 with
+    | inr r => rw [ht] at h; obtain ⟨o, f⟩ := r; simp at h
+    | inl s2 =>
+      rw [ht] at h
+      dsimp only at h
+      have hq2 : PInv (recover s2).ps := recover_safe s2 (t1 s2 ht)
+      split at h
+      · cases h; exact ⟨(recover_measure s2).2.2, hq2⟩
+      · next he => exact ih (recover s2) s' hq2 (by intro e; rw [e] at he; simp at he) h
+
+theorem pump_returned (input : Bytes) : ∀ (fuel : Nat) (s1 : LoopSt) (out : LoopOut) (sf : LoopSt),
+    Post input s1 → PInv s1.ps → s1.unread ≠ [] → pump fuel s1 = .returned out sf →
+    ∃ k l, out = .err k l := by
+  intro fuel
+  induction fuel with
+  | zero => intro s1 out sf _ _ _ h; simp [pump] at h
+  | succ n ih =>
+    intro s1 out sf hp hq hun h
+    unfold pump at h
+    rw [afterFetch_eq_tailS false s1 (Or.inr hun)] at h
+    obtain ⟨t1, t2⟩ := tailS_safe s1 hq
+    obtain ⟨u1, u2⟩ := tailS_spec input s1 hp
+    cases ht : tailS s1 with
+    | inr r =>
+      rw [ht] at h
+      obtain ⟨o, f⟩ := r
+      have e1 : o = out := by cases h; rfl
+      subst e1
+      cases o with
+      | err k l => exact ⟨k, l, rfl⟩
+      | panic e => exact absurd rfl ((t2 _ _ ht).1 e)
+      | ok ps =>
+        exfalso
+        have h1 := tailS_ok_unread s1 ps f ht
+        have h2 := ((u2 _ _ ht).2 ps rfl).2
+        exact hun (by rw [← h1, h2])
+    | inl s2 =>
+      rw [ht] at h
+      dsimp only at h
+      split at h
+      · cases h
+      · next he =>
+        exact ih (recover s2) out sf (recover_post input s2 (u1 s2 ht)) (recover_safe s2 (t1 s2 ht))
+          (by intro e; rw [e] at he; simp at he) h
+
+theorem drain_safe : ∀ (fuel : Nat) (s1 : LoopSt) (out : LoopOut) (sf : LoopSt),
+    PInv s1.ps → drain fuel s1 = some (out, sf) → (∀ e, out ≠ .panic e) ∧ ∀ ps, out = .ok ps → PInv ps := by
+  intro fuel
+  induction fuel with
+  | zero => intro s1 out sf _ h; simp [drain] at h
+  | succ n ih =>
+    intro s1 out sf hq h
+    unfold drain at h
+    rw [afterFetch_eq_tailS true s1 (Or.inl rfl)] at h
+    obtain ⟨t1, t2⟩ := tailS_safe s1 hq
+    cases ht : tailS s1 with
+    | inr r =>
+      rw [ht] at h
+      obtain ⟨o, f⟩ := r
+      have e1 : o = out := by cases h; rfl
+      subst e1
+      exact t2 _ _ ht
+    | inl s2 =>
+      rw [ht] at h
+      exact ih (recover s2) out sf (recover_safe s2 (t1 s2 ht)) h
+
+theorem flagsM_le (s : LoopSt) : flagsM s ≤ 3 := by
+  unfold flagsM
+  cases s.justFinished <;> cases s.triedToGrow <;> cases s.inRecovery <;> simp
+
+/-- every state in which `parse_async` awaits a chunk: loop invariant, exhausted reader, recovery
+    block done, parser invariant -/
+structure Susp (input : Bytes) (s : LoopSt) : Prop where
+  post : Post input s
+  unread : s.unread = []
+  recDone : RecDone s
+  safe : PInv s.ps
+
+theorem runRev_susp : ∀ (rx : List Bytes) (s : LoopSt) (cb : Bytes),
+    model.runRev rx = some (s, cb) → Susp (bodyOf rx) s := by
+  intro rx
+  induction rx with
+  | nil =>
+    intro s cb h
+    have e : model.init = s := by simp only [ParserModel.runRev] at h; cases h; rfl
+    rw [← e]
+    exact ⟨init_post, rfl, fun h => by simp [model, init, Stream.init] at h, PInv.init⟩
+  | cons b older ih =>
+    intro s cb h
+    obtain ⟨hp, hu, _⟩ := runRev_post (b :: older) s cb h
+    simp only [ParserModel.runRev] at h
+    cases ho : model.runRev older with
+    | none => rw [ho] at h; simp at h
+    | some r0 =>
+      obtain ⟨s0, cb0⟩ := r0
+      rw [ho] at h
+      have h0 := ih s0 cb0 ho
+      dsimp only at h
+      cases hf : model.feed s0 b with
+      | none => rw [hf] at h; simp at h
+      | some r1 =>
+        obtain ⟨s1, cb1⟩ := r1
+        rw [hf] at h
+        have e1 : s1 = s := by cases h; rfl
+        rw [← e1]
+        rw [← e1] at hp hu
+        have hf' : feed s0 b = some (s1, cb1) := hf
+        unfold feed at hf'
+        by_cases hb : b.isEmpty = true
+        · rw [if_pos hb] at hf'
+          have e2 : s0 = s1 := by cases hf'; rfl
+          rw [← e2]
+          rw [← e2] at hp
+          exact ⟨hp, h0.unread, h0.recDone, h0.safe⟩
+        · rw [if_neg hb] at hf'
+          have hbne : b ≠ [] := fun e => hb (by simp [e])
+          cases hpm : pump (feedFuel s0 b) { s0 with unread := b } with
+          | fuel => rw [hpm] at hf'; simp at hf'
+          | returned o f => rw [hpm] at hf'; simp at hf'
+          | await s' =>
+            rw [hpm] at hf'
+            have e2 : s' = s1 := by cases hf'; rfl
+            rw [← e2]
+            rw [← e2] at hp hu
+            obtain ⟨q1, q2⟩ := pump_await_safe _ _ s' (show PInv ({ s0 with unread := b } : LoopSt).ps from h0.safe) hbne hpm
+            exact ⟨hp, hu, q1, q2⟩
+
+/-- **`feed` is total and its `none` is an `Err` of `parse_async`**: from any state reached on
+    chunks, a (non-empty) chunk either leaves the loop awaiting the next one, or makes
+    `parse_async` return `Err` — never a panic, never `Ok` (bytes are still unread), and the
+    model's fuel is never exhausted. -/
+theorem feed_total (rx : List Bytes) (s : LoopSt) (cb b : Bytes) (h : model.runRev rx = some (s, cb))
+    (hb : b ≠ []) :
+    (∃ s', pump (feedFuel s b) { s with unread := b } = .await s') ∨
+    (∃ k l sf, pump (feedFuel s b) { s with unread := b } = .returned (.err k l) sf) := by
+  have hs := runRev_susp rx s cb h
+  have hp := post_extend (bodyOf rx) b s hs.post hs.unread
+  have hm : Stream.measure ({ s with unread := b } : LoopSt) < feedFuel s b := by
+    have := flagsM_le ({ s with unread := b } : LoopSt)
+    unfold Stream.measure feedFuel
+    show 8 * b.length + 4 * s.buf.data.length + flagsM ({ s with unread := b } : LoopSt) < _
+    omega
+  cases hpm : pump (feedFuel s b) { s with unread := b } with
+  | await s' => exact Or.inl ⟨s', rfl⟩
+  | fuel => exact absurd hpm (pump_fuel _ _ hs.recDone hb hm)
+  | returned out sf =>
+    obtain ⟨k, l, e⟩ := pump_returned _ _ _ out sf hp hs.safe hb hpm
+    exact Or.inr ⟨k, l, sf, by rw [e]⟩
+
+/-- **`finish` is total and its `none` is an `Err`**: at the end of the response `parse_async`
+    returns `Ok(parser.finish())` — `finish` never takes a panic outcome — or an `Err`. -/
+theorem finish_total (rx : List Bytes) (s : LoopSt) (cb : Bytes) (h : model.runRev rx = some (s, cb)) :
+    (∃ fin t, model.finish s = some (fin, t)) ∨
+    (∃ k l sf, drain (finishFuel s) s = some (.err k l, sf)) := by
+  have hs := runRev_susp rx s cb h
+  have hm : Stream.measure s < finishFuel s := by
+    have := flagsM_le s
+    unfold Stream.measure finishFuel
+    rw [hs.unread]
+    simp only [List.length_nil]
+    omega
+  cases hd : drain (finishFuel s) s with
+  | none => exact absurd hd (drain_fuel _ _ hs.recDone hm)
+  | some r =>
+    obtain ⟨out, sf⟩ := r
+    obtain ⟨d1, d2⟩ := drain_safe _ _ out sf hs.safe hd
+    cases out with
+    | err k l => exact Or.inr ⟨k, l, sf, rfl⟩
+    | panic e => exact absurd rfl (d1 e)
+    | ok ps =>
+      left
+      obtain ⟨f, hf⟩ := finish_ok ps (d2 ps rfl)
+      refine ⟨newCb s sf, f, ?_⟩
+      show finish s = _
+      unfold finish
+      rw [hd]
+      simp only [hf]
+      rfl
+
+
+/-! ### law 2: `chunk_independent` -/
+
+theorem shortLines_iff (b : Bytes) : shortLines b ↔ ShortLines (MAX_BUFFER_CAPACITY / 2) b := Iff.rfl
+
+theorem ShortLines.prefix {half : Nat} {a b : Bytes} (h : ShortLines half (a ++ b)) : ShortLines half a := by
+  intro x seg y he hn
+  exact h x seg (y ++ b) (by rw [he]; simp) hn
+
+/-- in a `J` state (no recovery) the answer the loop is heading for is the reference semantics of
+    the whole input received -/
+theorem J_spec (input : Bytes) (s : LoopSt) (hJ : J MAX_BUFFER_CAPACITY input Lsym {} s) :
+    specRest Lsym symOps.lines s.ps (!(cbBytes s).isEmpty) (s.buf.data ++ s.unread) =
+      specOut Lsym symOps.lines {} input := by
+  obtain ⟨ls, hls, hcb, hfold⟩ := hJ.aligned
+  have hsplit := hJ.inv.split
+  unfold specOut
+  rw [← hsplit, hcb, List.append_assoc, specRest_append Lsym symOps.lines {} s.ps false ls hls _ hfold]
+  congr 1
+  rw [flatten_isEmpty_of_lines ls hls]
+  simp
+
+theorem J_extend (input b : Bytes) (s : LoopSt) (hJ : J MAX_BUFFER_CAPACITY input Lsym {} s)
+    (hun : s.unread = []) : J MAX_BUFFER_CAPACITY (input ++ b) Lsym {} { s with unread := b } := by
+  obtain ⟨hinv, h2, h3, h4, h5, h6, h7, h8⟩ := hJ
+  have hp := post_extend input b s ⟨hinv.toMid, fun hf => hinv.fully hf h2⟩ hun
+  exact ⟨⟨hp.mid, fun hf _ => hp.fully hf⟩, h2, h3, h4, h5, h6, h7, h8⟩
+
+theorem init_J' : J MAX_BUFFER_CAPACITY [] Lsym {} init :=
+  init_J MAX_BUFFER_CAPACITY INITIAL_BUFFER_CAPACITY [] Lsym {} [] (by decide) ⟨4, by decide⟩
+
+theorem pump_J (input : Bytes) (hshort : ShortLines (MAX_BUFFER_CAPACITY / 2) input) :
+    ∀ (fuel : Nat) (s1 s' : LoopSt), J MAX_BUFFER_CAPACITY input Lsym {} s1 → s1.unread ≠ [] →
+      pump fuel s1 = .await s' → J MAX_BUFFER_CAPACITY input Lsym {} s' ∧ s'.unread = [] := by
+  intro fuel
+  induction fuel with
+  | zero => intro s1 s' _ _ h; simp [pump] at h
+  | succ n ih =>
+    intro s1 s' hJ hun h
+    unfold pump at h
+    rw [afterFetch_eq_step false s1 (Or.inr hun) hJ.notRec] at h
+    rcases step_J MAX_BUFFER_CAPACITY input symOps Lsym {} parseMore_eq (by decide) hshort s1 hJ with
+      ⟨sf, hs⟩ | ⟨s2, hs, hJ2, _⟩
+    · rw [hs] at h; simp at h
+    · rw [hs] at h
+      dsimp only at h
+      rw [recover_of_notRec s2 hJ2.notRec] at h
+      split at h
+      · next he => cases h; exact ⟨hJ2, List.isEmpty_iff.mp he⟩
+      · next he => exact ih s2 s' hJ2 (by intro e; rw [e] at he; simp at he) h
+
+theorem drain_J (input : Bytes) (hshort : ShortLines (MAX_BUFFER_CAPACITY / 2) input) :
+    ∀ (fuel : Nat) (s1 : LoopSt) (out : LoopOut) (sf : LoopSt), J MAX_BUFFER_CAPACITY input Lsym {} s1 →
+      drain fuel s1 = some (out, sf) → out = specOut Lsym symOps.lines {} input := by
+  intro fuel
+  induction fuel with
+  | zero => intro s1 out sf _ h; simp [drain] at h
+  | succ n ih =>
+    intro s1 out sf hJ h
+    unfold drain at h
+    rw [afterFetch_eq_step true s1 (Or.inl rfl) hJ.notRec] at h
+    rcases step_J MAX_BUFFER_CAPACITY input symOps Lsym {} parseMore_eq (by decide) hshort s1 hJ with
+      ⟨sf', hs⟩ | ⟨s2, hs, hJ2, _⟩
+    · rw [hs] at h
+      simp only [Option.some.injEq, Prod.mk.injEq] at h
+      rw [← h.1]
+      exact J_spec input s1 hJ
+    · rw [hs] at h
+      dsimp only at h
+      rw [recover_of_notRec s2 hJ2.notRec] at h
+      exact ih s2 out sf hJ2 h
+
+theorem runRev_J : ∀ (rx : List Bytes) (s : LoopSt) (cb : Bytes),
+    ShortLines (MAX_BUFFER_CAPACITY / 2) (bodyOf rx) → model.runRev rx = some (s, cb) →
+    J MAX_BUFFER_CAPACITY (bodyOf rx) Lsym {} s ∧ s.unread = [] := by
+  intro rx
+  induction rx with
+  | nil =>
+    intro s cb _ h
+    have e : model.init = s := by simp only [ParserModel.runRev] at h; cases h; rfl
+    rw [← e]
+    exact ⟨init_J', rfl⟩
+  | cons b older ih =>
+    intro s cb hshort h
+    simp only [ParserModel.runRev] at h
+    cases ho : model.runRev older with
+    | none => rw [ho] at h; simp at h
+    | some r0 =>
+      obtain ⟨s0, cb0⟩ := r0
+      rw [ho] at h
+      have hshort0 : ShortLines (MAX_BUFFER_CAPACITY / 2) (bodyOf older) := ShortLines.prefix hshort
+      obtain ⟨hJ0, hu0⟩ := ih s0 cb0 hshort0 ho
+      dsimp only at h
+      cases hf : model.feed s0 b with
+      | none => rw [hf] at h; simp at h
+      | some r1 =>
+        obtain ⟨s1, cb1⟩ := r1
+        rw [hf] at h
+        have e1 : s1 = s := by cases h; rfl
+        rw [← e1]
+        have hf' : feed s0 b = some (s1, cb1) := hf
+        unfold feed at hf'
+        by_cases hb : b.isEmpty = true
+        · rw [if_pos hb] at hf'
+          have e2 : s0 = s1 := by cases hf'; rfl
+          rw [← e2]
+          have : b = [] := List.isEmpty_iff.mp hb
+          subst this
+          simp only [bodyOf, List.append_nil]
+          exact ⟨hJ0, hu0⟩
+        · rw [if_neg hb] at hf'
+          have hbne : b ≠ [] := fun e => hb (by simp [e])
+          cases hpm : pump (feedFuel s0 b) { s0 with unread := b } with
+          | fuel => rw [hpm] at hf'; simp at hf'
+          | returned o f => rw [hpm] at hf'; simp at hf'
+          | await s' =>
+            rw [hpm] at hf'
+            have e2 : s' = s1 := by cases hf'; rfl
+            rw [← e2]
+            exact pump_J (bodyOf older ++ b) hshort _ _ s' (J_extend (bodyOf older) b s0 hJ0 hu0) hbne hpm
+
+/-- **`ParserLaws.chunk_independent` for the real parser**: on C10's domain (every line shorter
+    than 80 KiB) a successful parse by `parse_async`, whatever the chunks the response arrived in,
+    yields the table of `SymbolFile::from_bytes` on the same bytes. From C10's machinery: both
+    compute the reference semantics `specOut` (`step_J`, `stream_eq_spec`). -/
+theorem chunk_independent_real (rx : List Bytes) (cb : Bytes) (t : Sym.SymbolFile)
+    (hshort : shortLines (bodyOf rx)) (h : model.stream rx = some (cb, t)) :
+    model.parse (bodyOf rx) = some t := by
+  have hshort' : ShortLines (MAX_BUFFER_CAPACITY / 2) (bodyOf rx) := hshort
+  unfold ParserModel.stream at h
+  cases hr : model.runRev rx with
+  | none => rw [hr] at h; simp at h
+  | some r =>
+    obtain ⟨s, cb0⟩ := r
+    rw [hr] at h
+    dsimp only at h
+    obtain ⟨hJ, _⟩ := runRev_J rx s cb0 hshort' hr
+    cases hfin : model.finish s with
+    | none => rw [hfin] at h; simp at h
+    | some r2 =>
+      obtain ⟨fin, t'⟩ := r2
+      rw [hfin] at h
+      have ht : t' = t := by cases h; rfl
+      have hfin' : finish s = some (fin, t') := hfin
+      unfold finish at hfin'
+      cases hd : drain (finishFuel s) s with
+      | none => rw [hd] at hfin'; simp at hfin'
+      | some r3 =>
+        obtain ⟨out, sf⟩ := r3
+        rw [hd] at hfin'
+        have hout := drain_J (bodyOf rx) hshort' _ s out sf hJ hd
+        cases out with
+        | err k l => simp at hfin'
+        | panic e => simp at hfin'
+        | ok ps =>
+          dsimp only at hfin'
+          cases hfs : Sym.finish ps with
+          | panic e => rw [hfs] at hfin'; simp at hfin'
+          | ok f =>
+            rw [hfs] at hfin'
+            have hft : f = t' := by cases hfin'; rfl
+            -- the whole-buffer parse computes the same reference semantics
+            obtain ⟨sf', hwhole⟩ := machine_eq_spec MAX_BUFFER_CAPACITY INITIAL_BUFFER_CAPACITY (bodyOf rx)
+              symOps Lsym {} [] parseMore_eq (by decide) (by decide) ⟨4, by decide⟩ hshort'
+            show parse (bodyOf rx) = some t
+            unfold parse parseResult parseStream
+            rw [hwhole, ← hout]
+            simp only [hfs]
+            rw [← ht, ← hft]
+
+
+/-! ### law 3: `info_url_trailer` -/
+
+theorem trailer_eq_note (u : Url) : trailer u = noteThen u [] := by
+  simp [trailer, noteThen, infoUrlTag, infoUrlTagB, Sym.NL]
+
+theorem trailer_isLine (u : Url) (hu : UrlClean u) : IsLine (trailer u) := by
+  refine ⟨infoUrlTag ++ u, ?_, rfl⟩
+  intro h
+  rcases List.mem_append.mp h with h | h
+  · revert h; decide
+  · exact (hu _ h).1 rfl
+
+/-- a whole-buffer parse that succeeds, on C10's domain: the fold of the per-line step over the
+    lines of the file gave the state `ps` whose `finish` is the table -/
+theorem parse_some_spec (body : Bytes) (t : Sym.SymbolFile)
+    (hshort : ShortLines (MAX_BUFFER_CAPACITY / 2) body) :
+    parse body = some t ↔
+      ∃ ps, specOut Lsym symOps.lines {} body = .ok ps ∧ Sym.finish ps = .ok t := by
+  obtain ⟨sf, hw⟩ := machine_eq_spec MAX_BUFFER_CAPACITY INITIAL_BUFFER_CAPACITY body
+    symOps Lsym {} [] parseMore_eq (by decide) (by decide) ⟨4, by decide⟩ hshort
+  unfold parse parseResult parseStream
+  rw [hw]
+  cases specOut Lsym symOps.lines {} body with
+  | err k l => simp
+  | panic e => simp
+  | ok ps =>
+    simp only []
+    cases hfs : Sym.finish ps with
+    | panic e => simp [hfs]
+    | ok f => simp [hfs]
+
+/-- **`ParserLaws.info_url_trailer` for the real parser** (new; from the parser model): if a body
+    parses to `t` and ends in a line feed, the body followed by `INFO URL <url>\n` — the cache entry
+    `commit_cache_file` writes — parses to `t` with `url = Some(url)`: an open FUNC / STACK CFI INIT
+    item is finished by the note exactly as `finish` would have finished it; an `INFO URL` line the
+    body has itself is overridden. Domain: every line of the entry, the note included, shorter than
+    80 KiB (C10's domain; a note longer than the parser's window would be dropped as an over-long
+    line); the URL as `Url::to_string` writes it. -/
+theorem info_url_trailer_real (body : Bytes) (t : Sym.SymbolFile) (u : Url) (hu : UrlClean u)
+    (hnl : EndsNl body) (hshort : shortLines (body ++ trailer u)) (h : model.parse body = some t) :
+    model.parse (body ++ trailer u) = some (model.setUrl t u) := by
+  have hshortE : ShortLines (MAX_BUFFER_CAPACITY / 2) (body ++ trailer u) := hshort
+  have hshortB : ShortLines (MAX_BUFFER_CAPACITY / 2) body := ShortLines.prefix hshortE
+  obtain ⟨ps, hspec, hfin⟩ := (parse_some_spec body t hshortB).mp h
+  apply (parse_some_spec (body ++ trailer u) _ hshortE).mpr
+  -- the lines of the body
+  obtain ⟨pre, hpre⟩ := hnl
+  have hrest : (linesOf body).2 = [] := by rw [hpre]; exact linesAux_endNL pre []
+  have hflat : (linesOf body).1.flatten = body := by
+    have := linesOf_flatten body; rw [hrest, List.append_nil] at this; exact this
+  have hlines := linesOf_isLine body
+  -- the fold over them succeeded
+  have hfold : foldL Lsym {} (linesOf body).1 = .ok ps ∧ (linesOf body).1.isEmpty = false := by
+    unfold specOut specRest at hspec
+    cases hf : foldL Lsym {} (linesOf body).1 with
+    | err k l => rw [hf] at hspec; simp at hspec
+    | panic e => rw [hf] at hspec; simp at hspec
+    | ok st' =>
+      rw [hf] at hspec
+      simp only [Bool.not_false, Bool.true_and] at hspec
+      cases he : (linesOf body).1.isEmpty with
+      | true => rw [he] at hspec; simp at hspec
+      | false =>
+        rw [he, hrest] at hspec
+        simp at hspec
+        exact ⟨by rw [hspec], rfl⟩
+  -- `finish ps` succeeded, so the open item was finished without a panic outcome
+  obtain ⟨st', hfc⟩ : ∃ st', finishCur ps = .ok st' := by
+    unfold Sym.finish at hfin
+    cases hfc : finishCur ps with
+    | panic e => rw [hfc] at hfin; simp at hfin
+    | ok st' => exact ⟨st', rfl⟩
+  refine ⟨{ st' with url := some u, lines := st'.lines + 1 }, ?_, ?_⟩
+  · unfold specOut
+    rw [← hflat, specRest_append Lsym symOps.lines {} ps false _ hlines (trailer u) hfold.1]
+    unfold specRest
+    have hl : linesOf (trailer u) = ([trailer u], []) := by
+      have := linesOf_append_lines [trailer u] (by
+        intro l hl; simp only [List.mem_singleton] at hl; rw [hl]; exact trailer_isLine u hu) []
+      simpa [linesOf, linesAux] using this
+    rw [hl]
+    simp only [foldL]
+    rw [trailer_eq_note, Lsym_info ps u hu, hfc]
+    simp [hfold.2]
+  · rw [finish_setUrl ps st' hfc u, hfin]
+    rfl
+
+/-- **the three laws hold for the real parser model** — no assumption left about the parser -/
+theorem laws : ParserLaws model :=
+  { callback_prefix := callback_prefix_real
+    chunk_independent := chunk_independent_real
+    info_url_trailer := info_url_trailer_real }
 
 
 end MdModel.CacheFs.Real
